@@ -431,6 +431,10 @@ def b_campaign(ctx, env):
     ctx.notes["B_workloads_dying_alone"] = sorted(set("%s c%d" % (w.fmt.name, w.ch) for w in dying))[:20]
     wls = [w for w in wls if w not in dying]
     groups = make_groups(ctx, wls, 2 if quick else 4) + twin_groups(ctx, fs, 1 if quick else 4)
+    from .. import spoolcamp                         # live handles with a second file of their own (ALAC spool), more than one packet each
+    sp = spoolcamp.groups(ctx, fs, Workload, Group)
+    stats["spool_twin_groups"] = len(sp)
+    groups += sp
     solo_scripts = {}
     for g in groups:
         for k, w in enumerate(g.wls):
@@ -522,6 +526,13 @@ def replay(ctx, path):
         tmp = tempfile.mkdtemp(prefix="c19-", dir="/var/tmp")
         try:
             return fdworld.replay(ctx, path, {"TMPDIR": tmp, "SFH_SCRATCH": tmp})
+        finally:
+            shutil.rmtree(tmp, ignore_errors=True)
+    if "c19-heapfill" in text:
+        from .. import heapcamp
+        tmp = tempfile.mkdtemp(prefix="c19-", dir="/var/tmp")
+        try:
+            return heapcamp.replay(ctx, path, {"TMPDIR": tmp, "SFH_SCRATCH": tmp})
         finally:
             shutil.rmtree(tmp, ignore_errors=True)
     if "--- solo" not in text:
@@ -617,6 +628,10 @@ def run(ctx):
         ctx.notes["B_findings"] = len(findings)
         # ---- C: real descriptors (sf_open / sf_open_fd, SD2 resource fork, ALAC spool file) next to sentinels, every open/close order ----
         if fdworld.run(ctx, env):
+            found_input = True
+        # ---- D: heap history -- every script under three allocator fills (vlib/heapcamp.py; Sf.HeaderBuf) ----
+        from .. import heapcamp
+        if heapcamp.run(ctx, env, formats.writable_formats(ctx)):
             found_input = True
         leftovers = sorted(os.listdir(tmp)) if os.path.isdir(tmp) else []
         ctx.notes["tmpdir_leftovers"] = leftovers[:10]
